@@ -172,6 +172,12 @@ pub fn run(cli: &Cli, rep: &Report) {
             }
         }
     }
+    // more than 1024 blocks in one stream (the index is read back record by record): 1023, 1024, 1025 and 1100 blocks of
+    // 4096 bytes, the last one short
+    for blocks in [1023usize, 1024, 1025, 1100] {
+        let total = 4096 * (blocks - 1) + 5;
+        cases.push(Case { cont: Container::Xz { check: 1, block: Some(4096), filters: vec![] }, opts: opts_with_dict(4096), input: Input::Shape(vec![Seg::Z(total)]), ops: vec![] });
+    }
     rep.extra("cases", json!({"micro_len": l, "micro_strings": n_micro, "micro_cases": n_micro_cases, "shape_cases": cases.len() - n_micro_cases, "chains": chains.len(), "shapes": shapes.len()}));
 
     let n = cases.len();
